@@ -310,6 +310,13 @@ def stepFib (s : FibSt) (f : List String) (got : String) : StepResult St :=
       | none => skip
       | some _ => event (.dead (keyOf w)) "dead-dirty" "dead-clean"
     | none => skip
+  | ["sweep", wsT] =>
+    match (wsT.splitOn ",").mapM String.toNat? with
+    | some ws =>
+      if !(ws.all fun w => 1 ≤ w && w < s.n) then skip
+      else if !(ws.any fun w => (pget s.rs.t.nbrs (keyOf w)).isSome) then skip
+      else event (.sweep (ws.map keyOf)) "sweep-dirty" "sweep-clean"
+    | none => skip
   | ["papply", x, reset, adds, rems] =>
     match x.toNat? with
     | some x =>
@@ -415,7 +422,7 @@ def step (st : St) (op : String) (got : String) : StepResult St :=
     match st with
     | .none => { st := st, expected := some "skip" }
     | .fib s =>
-      if ["ping", "adv", "advrace", "dead", "papply", "fib"].contains (f.headD "") then stepFib s f got
+      if ["ping", "adv", "advrace", "dead", "sweep", "papply", "fib"].contains (f.headD "") then stepFib s f got
       else
         -- keep the spec replay meaningful even on an op the model does not know
         { st := st, expected := some "skip" }
